@@ -61,6 +61,9 @@ class PythonMagicNumberAnalyzer(ast.NodeVisitor):
             # A sign is part of the number: LIMIT = -5 is judged like LIMIT = 5
             if isinstance(parent, ast.UnaryOp) and isinstance(parent.op, (ast.USub, ast.UAdd)):
                 parent = self.parent_map.get(parent)
+            # A keyword argument is judged in the context of its call: enumerate(items, start=1)
+            if isinstance(parent, ast.keyword):
+                parent = self.parent_map.get(parent)
             line_number = node.lineno if hasattr(node, "lineno") else 0
             self.numeric_literals.append((node, parent, node.value, line_number))
 
